@@ -927,5 +927,5 @@ func cornerSubsetEq(src modeling.Mesh, sv int, r modeling.Mesh, rv int) error {
 }
 
 func TestC03(t *testing.T) {
-	vh.Drive(t, vh.Spec[Case]{Name: "ops", Quick: 80000, Thorough: 3000000, Gen: genCase, Run: runCase})
+	vh.Drive(t, vh.Spec[Case]{Name: "ops", Quick: 320000, Thorough: 3000000, Gen: genCase, Run: runCase})
 }
